@@ -21,6 +21,7 @@
 #############################################################################
 
 from abc import abstractmethod
+from typing import ClassVar
 
 from dashlive.mpeg.dash.event_stream import EventStream
 from dashlive.mpeg.mp4 import EventMessageBox
@@ -31,6 +32,9 @@ class RepeatingEventBase(EventBase):
     """
     A base class for events that repeat at a fixed interval
     """
+
+    # largest number of events that is inserted into one media segment
+    MAX_EVENTS_PER_SEGMENT: ClassVar[int] = 10000
 
     def create_manifest_context(self, context: dict) -> dict:
         stream = EventStream(
@@ -74,6 +78,11 @@ class RepeatingEventBase(EventBase):
 
         # print('seg start={} end={} duration={}'.format(
         #    seg_start, seg_end, seg_end - seg_start))
+
+        if (seg_end - seg_start) // self.interval > self.MAX_EVENTS_PER_SEGMENT:
+            raise ValueError(
+                f'timescale {self.timescale} and interval {self.interval} ' +
+                'would put too many events into one segment')
 
         # presentation_time is using event timebase
         presentation_time = self.start
